@@ -1,4 +1,5 @@
 #include "fmt_binary.hpp"
+#include "../core/binseeds.hpp"
 #include <jsoncons_ext/cbor/cbor.hpp>
 using namespace jsoncons;
 namespace iosim {
@@ -18,28 +19,7 @@ struct CborB {
     static void encode(const ojson& j, std::vector<uint8_t>& out, uint64_t variant) { auto o = cbor::cbor_options{}.pack_strings(variant & 1).use_typed_arrays((variant & 2) != 0); cbor::encode_cbor(j, out, o); }
     static void encode_stream(const ojson& j, std::ostream& os, uint64_t variant) { auto o = cbor::cbor_options{}.pack_strings(variant & 1); cbor::encode_cbor(j, os, o); }
     static Outcome encoder_nest(int ckind, size_t depth, int limit) { auto opt = cbor::cbor_options{}.max_nesting_depth(limit); return encoder_nest_impl<cbor::cbor_bytes_encoder, std::vector<uint8_t>, cbor::cbor_options>(ckind, depth, opt, false); }
-    static const char* const* seed_hex() {
-        static const char* const s[] = {
-            "9f0102ff", "bf616101ff", "7f616161626263ff", "5f41014202 03ff", "9f9f9fffffff", "bf6161bf6162 9f01ffffff", "7f6161ff", "5fff", "9f", "bf6161", "7f6161", "ff", "9fff ff",
-            "c074323031332d30332d32315432303a30343a30305a", "c11a514b67b0", "c1fb41d452d9ec200000", "c249010000000000000000", "c349010000000000000000", "c48221196ab3", "c4822003", "c5822003", "c48202c2490100000000000000 00",
-            "d82076687474703a2f2f7777772e6578616d706c652e636f6d", "d8184401020304", "d81563616263", "d81641ff", "d81741ff", "d82243616263",
-            "d84043010203", "d8414400010002", "d8454401000200", "d8424800000001 00000002", "d846480100000002000000", "d84350 0000000000000001 0000000000000002", "d84843fffe01", "d84944fffe0001", "d84d44feff0100",
-            "d8504400003c00", "d85148 3fc00000 40000000", "d85250 3ff8000000000000 4000000000000000", "d8544400003c 00", "d8554800 00c03f 00000040", "d85650 000000000000f83f 0000000000000040", "d8444301 ff7f",
-            "d8288282020386010203040506", "d828828202039f010203040506ff", "d9040582820203 d841 4c000100020003000400050006", "d828828102 8301 0203",
-            "d901008363616161636262 62d81900", "d90100 85 63616161 63626262 d81900 d81901 d81900", "d9010082 6161 d81900", "d81900",
-            "1805", "190005", "1a00000005", "1b0000000000000005", "3800", "39ffff", "3a7fffffff", "3bffffffffffffffff", "3b7fffffffffffffff", "3b8000000000000000", "1bffffffffffffffff", "7803616263", "790003616263", "7a00000003616263", "7b0000000000000003616263", "5801ff", "980101", "b8016161 01",
-            "f93c00", "f97c00", "f9fc00", "f97e00", "f90001", "fa3fc00000", "fa7f800000", "fb3ff8000000000000", "fb7ff0000000000000", "f4", "f5", "f6", "f7", "f820", "f8ff", "f0", "fc", "fd", "fe",
-            "8301820203820405", "a26161018162 62820203", "a1 01 02", "a1 f6 02", "a1 8101 02", "a1616101 6161 02", "62c3a9", "62c328", "61ff", "63e282ac", "64f09f9880",
-            "9b00000000ffffffff", "bb00000000ffffffff", "7b00000000ffffffff", "5b00000000ffffffff", "9a7fffffff01", "ba7fffffff616101", "7a7fffffff6161", "5a7fffffff01", "d8405b0000001000000000", "d8565a4000000000", "9b7fffffffffffffff", "bb7fffffffffffffff", "5b7fffffffffffffff", "7bffffffffffffffff", "9bffffffffffffffff",
-"7f780f6162636465666768696a6b6c6d6e6fff", "5f580f6162636465666768696a6b6c6d6e6fff", "7f78106162636465666768696a6b6c6d6e6f70ff", "5f58106162636465666768696a6b6c6d6e6f70ff", "7f78116162636465666768696a6b6c6d6e6f7071ff", "5f58116162636465666768696a6b6c6d6e6f7071ff", "7f781f6162636465666768696a6b6c6d6e6f707172737475767778797a616263646578206162636465666768696a6b6c6d6e6f707172737475767778797a616263646566ff", "5f581f6162636465666768696a6b6c6d6e6f707172737475767778797a616263646558206162636465666768696a6b6c6d6e6f707172737475767778797a616263646566ff", "7f78216162636465666768696a6b6c6d6e6f707172737475767778797a61626364656667ff", "5f58216162636465666768696a6b6c6d6e6f707172737475767778797a61626364656667ff", "7f78186162636465666768696a6b6c6d6e6f70717273747576777878286162636465666768696a6b6c6d6e6f707172737475767778797a6162636465666768696a6b6c6d6eff", "5f58186162636465666768696a6b6c6d6e6f70717273747576777858286162636465666768696a6b6c6d6e6f707172737475767778797a6162636465666768696a6b6c6d6eff", "7f783f6162636465666768696a6b6c6d6e6f707172737475767778797a6162636465666768696a6b6c6d6e6f707172737475767778797a6162636465666768696a6b78406162636465666768696a6b6c6d6e6f707172737475767778797a6162636465666768696a6b6c6d6e6f707172737475767778797a6162636465666768696a6b6c78416162636465666768696a6b6c6d6e6f707172737475767778797a6162636465666768696a6b6c6d6e6f707172737475767778797a6162636465666768696a6b6c6dff", "5f583f6162636465666768696a6b6c6d6e6f707172737475767778797a6162636465666768696a6b6c6d6e6f707172737475767778797a6162636465666768696a6b58406162636465666768696a6b6c6d6e6f707172737475767778797a6162636465666768696a6b6c6d6e6f707172737475767778797a6162636465666768696a6b6c58416162636465666768696a6b6c6d6e6f707172737475767778797a6162636465666768696a6b6c6d6e6f707172737475767778797a6162636465666768696a6b6c6dff", "7f78806162636465666768696a6b6c6d6e6f707172737475767778797a6162636465666768696a6b6c6d6e6f707172737475767778797a6162636465666768696a6b6c6d6e6f707172737475767778797a6162636465666768696a6b6c6d6e6f707172737475767778797a6162636465666768696a6b6c6d6e6f707172737475767778ff", "5f58806162636465666768696a6b6c6d6e6f707172737475767778797a6162636465666768696a6b6c6d6e6f707172737475767778797a6162636465666768696a6b6c6d6e6f707172737475767778797a6162636465666768696a6b6c6d6e6f707172737475767778797a6162636465666768696a6b6c6d6e6f707172737475767778ff", "7f78146162636465666768696a6b6c6d6e6f707172737478146162636465666768696a6b6c6d6e6f707172737478146162636465666768696a6b6c6d6e6f7071727374ff", "5f58146162636465666768696a6b6c6d6e6f707172737458146162636465666768696a6b6c6d6e6f707172737458146162636465666768696a6b6c6d6e6f7071727374ff", "827f781e6162636465666768696a6b6c6d6e6f707172737475767778797a61626364781f6162636465666768696a6b6c6d6e6f707172737475767778797a6162636465ff01", "a17f78126162636465666768696a6b6c6d6e6f707172ff5f58286162636465666768696a6b6c6d6e6f707172737475767778797a6162636465666768696a6b6c6d6eff", "c25f58146162636465666768696a6b6c6d6e6f70717273745809616263646566676869ff",
-            "818181818181818181818181818181818181818181818181818181818181818101", "c0c0c0c0c0c0c0c0c0c0c001", "d9d9f7a16161f5", "c1c2c3c40102",
-            // every RFC 8746 typed-array tag (0x40..0x57) alone / in an array / as a map value / with a ragged length; decimal fractions and
-            // bigfloats with bignum mantissas and odd shapes; stringref with byte strings, nested namespaces and bad references; date / epoch /
-            // expected-conversion tags on every kind they can meet (generated by the script in DESIGN.md section 15)
-            "d84050000102030405060708090a0b0c0d0e0f", "82d84048000102030405060701", "d84150000102030405060708090a0b0c0d0e0f", "a16161d8414400010203", "d84250000102030405060708090a0b0c0d0e0f", "d84243000102", "d84350000102030405060708090a0b0c0d0e0f", "82d84348000102030405060701", "d84450000102030405060708090a0b0c0d0e0f", "d84550000102030405060708090a0b0c0d0e0f", "a16161d8454400010203", "d84650000102030405060708090a0b0c0d0e0f", "82d84648000102030405060701", "d84750000102030405060708090a0b0c0d0e0f", "d84743000102", "d84850000102030405060708090a0b0c0d0e0f", "d84950000102030405060708090a0b0c0d0e0f", "82d84948000102030405060701", "a16161d8494400010203", "d84a50000102030405060708090a0b0c0d0e0f", "d84b50000102030405060708090a0b0c0d0e0f", "d84c50000102030405060708090a0b0c0d0e0f", "82d84c48000102030405060701", "d84c43000102", "d84d50000102030405060708090a0b0c0d0e0f", "a16161d84d4400010203", "d84e50000102030405060708090a0b0c0d0e0f", "d84f50000102030405060708090a0b0c0d0e0f", "82d84f48000102030405060701", "d85050000102030405060708090a0b0c0d0e0f", "d85150000102030405060708090a0b0c0d0e0f", "a16161d8514400010203", "d85143000102", "d85250000102030405060708090a0b0c0d0e0f", "82d85248000102030405060701", "d85350000102030405060708090a0b0c0d0e0f", "d85450000102030405060708090a0b0c0d0e0f", "d85550000102030405060708090a0b0c0d0e0f", "82d85548000102030405060701", "a16161d8554400010203", "d85650000102030405060708090a0b0c0d0e0f", "d85643000102", "d85750000102030405060708090a0b0c0d0e0f", "d84040", "d8565f4800000000000000ff", "c48221c2420100", "c48221c3420100", "c4820ac249010000000000000000", "c58221c2420100", "c58220c3410f", "c482c2410121", "c483010203", "c48101", "c480", "c4820102", "c482f93c0001", "c482616101", "c582183c03", "c58239ffff1b7fffffffffffffff", "c4821b7fffffffffffffff01", "c4823b7fffffffffffffff1bffffffffffffffff", "c5821903e8c249ffffffffffffffffff", "c4829f0102ff", "c4bf", "c49f2003ff", "d901008344616263644461626364d81900", "d901008464616263644465666768d81901d81900", "d9010082d901008263616161d81900d81900", "d901008263616161d81905", "d9010081d81900", "d901008263616161d8191bffffffffffffffff", "d901008263616161d81920", "d90100a26361616101d8190002", "d901009f646b657931646b657932d81900d81901ff", "d90100827f63616161ffd81900", "d901008363616161d81900d901008263626262d81900", "c1f93c00", "c13a0001ffff", "c1c249010000000000000000", "c07f6431393730ff", "c16161", "d8207f6468747470ff", "d8215f41ffff", "d8225f41ffff", "d8237f6161ff", "d8245f4101ff", "d8185f4101ff", "c2c249010000000000000000", "c35f4101ff", "c240", "c340", "c27fff", "d9d9f7d9d9f701", "db000000000000000101", "da000000024101",
-            nullptr };
-        return s;
-    }
+    static const char* const* seed_hex() { return sim::binseeds::cbor(); }
 };
 const FormatApi& cbor_api() { return BinaryFmt<CborB>::api(); }
 }
